@@ -273,6 +273,13 @@ def spectrum_lemmas():
             with_hyp_(ctx, hyp + [S.z(S.gt(num, 1))], lambda: ctx.oblige(
                 'C13::_interp_common[%s,%s].uniform_grid_spanning_the_union' % units,
                 S.eq(grid.at((i,)), S.add(lo, S.mul(step, i)))))
+            # "at the finer sampling": the grid step does not exceed any spacing of either operand
+            q, = ints(ctx, 'q')
+            for k, ww in enumerate((w1, w2)):
+                nn = ww.shape[0]
+                gap = S.sub(ww.at((S.add(q, 1),)), ww.at((q,)))
+                with_hyp_(ctx, [q >= 0, S.z(S.lt(S.add(q, 1), nn)), S.z(S.gt(num, 1))], lambda gap=gap, k=k: ctx.oblige(
+                    'C13::_interp_common[%s,%s].step_at_most_every_spacing_of_operand_%d' % (u1, u2, k + 1), S.le(step, gap)))
             for k, (vv, sp, ww) in enumerate(((v1, calls[0]['self'], w1), (v2, calls[1]['self'], w2))):
                 g = grid.at((i,))
                 inside = S.and_(S.ge(g, _amin(ctx, ww)), S.le(g, _amax(ctx, ww)))
@@ -307,6 +314,8 @@ def spectrum_lemmas():
                 r21 = interp.call_function(ctx, method(ctx, s2, opname), [s2, s1], {})
             except Raised:
                 continue
+            ctx.oblige('C13::Spectrum.%s.goes_through_the_common_grid' % opname, len(ctx.ghost_sample_calls) == 4,
+                       info={'sample_calls': len(ctx.ghost_sample_calls)})
             i, = ints(ctx, 'i')
             n = r12.attrs['_wave'].shape[0]
             from lvc.prove import oblige_equal
@@ -315,6 +324,47 @@ def spectrum_lemmas():
                 oblige_equal(ctx, 'C13::Spectrum.%s.commutative.wave' % opname, r12.attrs['_wave'].at((i,)), r21.attrs['_wave'].at((i,)))))
             ctx.oblige('C13::Spectrum.%s.new_object' % opname, r12 is not s1 and r12 is not s2)
     out.append(('C13::binary_operations', binary_ops))
+
+    def mixed_units_use_the_grid(ctx):
+        """Spectra whose wavelength NUMBERS coincide but whose units differ are still combined through the
+        common grid (never index by index)."""
+        interp = ctx.world.interp
+        n = ctx.fresh_int('n')
+        ctx.assume(n >= 2)
+        s1, s2 = mk_spectrum(ctx, 's1', 'nm', n=n), mk_spectrum(ctx, 's2', 'angstrom', n=n)
+        i, = ints(ctx, 'i')
+        ctx.assume(z3.ForAll([i], z3.Implies(z3.And(i >= 0, i < n), S.z(s1.attrs['_wave'].at((i,))) == S.z(s2.attrs['_wave'].at((i,))))), axiom=True)
+        ctx.ghost_sample_calls = []
+        try:
+            interp.call_function(ctx, method(ctx, s1, 'add'), [s1, s2], {})
+        except Raised:
+            return
+        calls = ctx.ghost_sample_calls
+        ctx.oblige('C13::equal_numbers_in_different_units_go_through_the_common_grid',
+                   len(calls) == 2 and all(c_['waveunit'] == 'nm' and c_['own_unit'] == 'nm' for c_ in calls),
+                   info={'sample_calls': len(calls)})
+    out.append(('C13::mixed_units_use_the_grid', mixed_units_use_the_grid))
+
+    def sample_builds_a_fresh_interpolator(ctx):
+        """Spectrum.sample builds its interpolator from the current wave / value with the requested method and
+        fill value on every call (no state carried from one call to the next)."""
+        interp = ctx.world.interp
+        sp = mk_spectrum(ctx, 's')
+        x = array(ctx, 'x', (ctx.fresh_int('nx'),), 'float')
+        ctx.no_model = {'lentil.radiometry.Spectrum.sample'}
+        f = method(ctx, sp, 'sample')
+        interp.call_function(ctx, f, [sp, x], {'method': 'linear', 'fill_value': 0, 'waveunit': 'nm'})
+        interp.call_function(ctx, f, [sp, x], {'method': 'cubic', 'fill_value': 1, 'waveunit': 'nm'})
+        made = ctx.__dict__.get('ghost_interp1d', [])
+        used = ctx.__dict__.get('ghost_interp1d_evals', [])
+        ok = len(used) == 2 and len(made) >= 2 and used[0] is not used[1] \
+            and used[0].kind == 'linear' and used[1].kind == 'cubic' \
+            and all(u.x.cell is sp.attrs['_wave'].cell and u.y.cell is sp.attrs['_value'].cell for u in used)
+        ctx.oblige('C13::Spectrum.sample.fresh_interpolator_with_the_requested_method', ok,
+                   info={'made': len(made), 'kinds': [str(u.kind) for u in used]})
+        if len(used) == 2:
+            ctx.oblige('C13::Spectrum.sample.fill_value_passed', S.eq(used[0].fill, 0) is not False and S.eq(used[1].fill, 1) is not False)
+    out.append(('C13::sample_is_stateless', sample_builds_a_fresh_interpolator))
     return out
 
 
@@ -337,3 +387,123 @@ def _amax(ctx, a):
     if key not in cache:
         cache[key] = L._max_symbolic(ctx, a, 'max') if S.is_z3(a.shape[0]) else L.np_max(ctx, a)
     return cache[key]
+
+
+# =======================================================================================
+# C15: resizing operations keep the spectrum well-formed; binning
+
+def c15_lemmas():
+    out = []
+
+    def state(sp):
+        return (sp.attrs['_wave'], sp.attrs['_value'])
+
+    def resample_wf(ctx):
+        """resample either succeeds (new grid, one sampled value per wavelength, new unit) or is refused by the
+        grid validation and then leaves wave AND value exactly as they were."""
+        interp = ctx.world.interp
+        sp = mk_spectrum(ctx, 's')
+        m = ctx.fresh_int('m')
+        ctx.assume(m >= 1)
+        new = array(ctx, 'new_wave', (m,), 'float')
+        w0, v0 = state(sp)
+        try:
+            interp.call_function(ctx, method(ctx, sp, 'resample'), [sp, new], {'waveunit': 'nm'})
+        except Raised as r:
+            ctx.oblige('C15::Spectrum.resample.refused_grid_leaves_wave_and_value_untouched',
+                       r.exc == 'ValueError' and sp.attrs['_wave'] is w0 and sp.attrs['_value'] is v0,
+                       info={'exc': r.exc, 'value_replaced': sp.attrs['_value'] is not v0})
+            return
+        w1, v1 = state(sp)
+        ctx.oblige('C15::Spectrum.resample.one_value_per_wavelength',
+                   z3.And(S.z(S.eq(w1.shape[0], m)), S.z(S.eq(A.as_array(ctx, v1).shape[0], m))))
+        i, = ints(ctx, 'i')
+        with_hyp_(ctx, [i >= 0, i < m], lambda: ctx.oblige('C15::Spectrum.resample.grid_is_the_requested_one', S.eq(w1.at((i,)), new.at((i,)))))
+    out.append(('C15::resample', resample_wf))
+
+    def append_wf(ctx):
+        """In-place append either extends wave and value together or, when refused, leaves both untouched."""
+        interp = ctx.world.interp
+        n = ctx.fresh_int('n')
+        ctx.assume(n >= 2)
+        a, b = mk_spectrum(ctx, 'a', n=n), mk_spectrum(ctx, 'b', n=n)
+        w0, v0 = state(a)
+        try:
+            interp.call_function(ctx, method(ctx, a, 'append'), [a, b], {})
+        except Raised as r:
+            ctx.oblige('C15::Spectrum.append.refusal_leaves_wave_and_value_untouched',
+                       r.exc == 'ValueError' and a.attrs['_wave'] is w0 and a.attrs['_value'] is v0,
+                       info={'exc': r.exc, 'value_replaced': a.attrs['_value'] is not v0, 'wave_replaced': a.attrs['_wave'] is not w0})
+            return
+        w1, v1 = state(a)
+        ctx.oblige('C15::Spectrum.append.one_value_per_wavelength',
+                   z3.And(S.z(S.eq(w1.shape[0], S.mul(2, n))), S.z(S.eq(v1.shape[0], S.mul(2, n)))))
+        i, = ints(ctx, 'i')
+        with_hyp_(ctx, [i >= 0, i < n], lambda: (
+            ctx.oblige('C15::Spectrum.append.retained_samples_unchanged', S.and_(S.eq(w1.at((i,)), w0.at((i,))), S.eq(v1.at((i,)), v0.at((i,))))),
+            ctx.oblige('C15::Spectrum.append.appended_samples', S.and_(S.eq(w1.at((S.add(i, n),)), b.attrs['_wave'].at((i,))),
+                                                                     S.eq(v1.at((S.add(i, n),)), b.attrs['_value'].at((i,)))))))
+    out.append(('C15::append', append_wf))
+
+    def bin_trapz(ends, unit):
+        def lemma(ctx):
+            """bin(centres, 'trapz') for three centres: edges at the mid-points (and half a step beyond the ends, or
+            the end centres themselves), each bin = (f_left + f_right)/2 x width with f sampled IN THE REQUESTED UNIT;
+            with power preservation the bins are scaled so that they sum to integrate(min, max)."""
+            interp = ctx.world.interp
+            sp = mk_spectrum(ctx, 's', unit)
+            c0, c1, c2 = [ctx.fresh_real('c%d' % k) for k in range(3)]
+            ctx.assume(z3.And(c0 > 0, c0 < c1, c1 < c2))
+            centres = Arr.from_list([c0, c1, c2])
+            preserve = ctx.branch(ctx.fresh_bool('preserve_power'))
+            bins = interp.call_function(ctx, method(ctx, sp, 'bin'), [sp, centres],
+                                        {'interp_method': 'trapz', 'ends': ends, 'preserve_power': preserve, 'waveunit': unit})
+            calls = ctx.__dict__.get('ghost_sample_calls', [])
+            tag = '%s,%s' % (ends, unit)
+            ctx.oblige('C15::Spectrum.bin[%s].sampled_in_the_requested_unit' % tag,
+                       len(calls) == 1 and calls[0]['waveunit'] == unit and calls[0]['own_unit'] == unit,
+                       info={'calls': [(str(c_['waveunit']), str(c_['own_unit'])) for c_ in calls]})
+            d0, d1 = S.truediv(S.sub(c1, c0), 2), S.truediv(S.sub(c2, c1), 2)
+            if ends == 'symmetric':
+                x = [S.sub(c0, d0), S.add(c0, d0), S.add(c1, d1), S.add(c2, d1)]
+            else:
+                x = [c0, S.add(c0, d0), S.add(c1, d1), c2]
+            f = [interp_value(ctx, sp, 'linear', 0, xv) for xv in x]
+            raw = [S.mul(S.truediv(S.add(f[k], f[k + 1]), 2), S.sub(x[k + 1], x[k])) for k in range(3)]
+            ctx.oblige('C15::Spectrum.bin[%s].one_value_per_centre' % tag, bins.shape[0] == 3)
+            if not preserve:
+                for k in range(3):
+                    ctx.oblige('C15::Spectrum.bin[%s].trapezoid_over_the_bin_edges[%d]' % (tag, k), S.eq(bins.at((k,)), raw[k]))
+            else:
+                ic = ctx.__dict__.get('ghost_integrate_calls', [])
+                ctx.oblige('C15::Spectrum.bin[%s].normalised_against_the_same_rule' % tag,
+                           len(ic) == 1 and ic[0].get('method') == 'trapz', info={'method': str(ic[0].get('method')) if ic else None})
+                if len(ic) == 1:
+                    tot = S.add(S.add(raw[0], raw[1]), raw[2])
+                    ctx.oblige('C15::Spectrum.bin[%s].integrates_over_the_span_of_the_centres' % tag,
+                               S.and_(S.eq(ic[0].get('start'), c0), S.eq(ic[0].get('end'), c2)))
+                    got = S.add(S.add(bins.at((0,)), bins.at((1,))), bins.at((2,)))
+                    ctx.oblige('C15::Spectrum.bin[%s].bins_sum_to_the_integral' % tag,
+                               z3.Implies(S.z(S.ne(tot, 0)), S.z(S.eq(got, ic[0]['out']))))
+        return ('C15::bin[%s,%s]' % (ends, unit), lemma)
+    out += [bin_trapz('symmetric', 'nm'), bin_trapz('inside', 'nm'), bin_trapz('symmetric', 'um')]
+
+    def trapezoid_rule(ctx):
+        """Properties of the trapezoid sum used by integrate / np.trapz (library contract sum_k dx_k (y_k + y_k+1)/2):
+        linear in the values, additive over intervals that meet at a sample point, exact for linear data."""
+        n = ctx.fresh_int('n')
+        ctx.assume(n >= 3)
+        x = array(ctx, 'x', (n,), 'float')
+        y, z_ = array(ctx, 'y', (n,), 'float'), array(ctx, 'z', (n,), 'float')
+        a, b = ctx.fresh_real('a'), ctx.fresh_real('b')
+        from lvc.prove import oblige_equal
+        lin = A.elementwise(ctx, lambda u, v: S.add(S.mul(a, u), S.mul(b, v)), [y, z_], dtype='float')
+        oblige_equal(ctx, 'C15::trapz.linear_in_the_values', L.np_trapz(ctx, lin, x),
+                     S.add(S.mul(L.np_trapz(ctx, y, x), a), S.mul(L.np_trapz(ctx, z_, x), b)))
+        # exact for y = p x + q on one interval: (x1 - x0)(y0 + y1)/2 = p (x1^2 - x0^2)/2 + q (x1 - x0)
+        p, q, x0, x1 = [ctx.fresh_real(k) for k in ('p', 'q', 'x0', 'x1')]
+        lhs = S.truediv(S.mul(S.sub(x1, x0), S.add(S.add(S.mul(p, x0), q), S.add(S.mul(p, x1), q))), 2)
+        rhs = S.add(S.truediv(S.mul(p, S.sub(S.mul(x1, x1), S.mul(x0, x0))), 2), S.mul(q, S.sub(x1, x0)))
+        ctx.oblige('C15::trapz.exact_for_linear_data', S.eq(lhs, rhs))
+    out.append(('C15::trapezoid_rule', trapezoid_rule))
+    return out
